@@ -169,11 +169,18 @@ pub mod csv {
         dir_path.join(fname_only)
     }
 
-    fn open_rates_csv_file_write(
+    // Rates are first written to this file, which replaces the real cache file
+    // only once it is complete.
+    fn rates_csv_tmp_file_path(dir_path: &std::path::Path, year: u32) -> PathBuf {
+        let fname_only = format!("rates-{}.csv.tmp", year);
+        dir_path.join(fname_only)
+    }
+
+    fn open_rates_csv_tmp_file_write(
         dir_path: &std::path::Path,
         year: u32,
     ) -> Result<File, SError> {
-        let file_path = rates_csv_file_path(dir_path, year);
+        let file_path = rates_csv_tmp_file_path(dir_path, year);
         crate::util::os::mk_writable_dir(dir_path).map_err(|e| e.to_string())?;
         File::create(file_path).map_err(|e| e.to_string())
     }
@@ -207,7 +214,12 @@ pub mod csv {
                     "<no path ???>"
                 }
             );
-            let file = open_rates_csv_file_write(&self.dir_path, year)?;
+            // The rows are written to a temporary file, which is renamed over the
+            // cache file only after everything has reached the disk. The cache file
+            // is therefore always either the previous complete file or the new
+            // complete one, even if we are interrupted. (A file cut off in the middle
+            // of a row could otherwise still parse, with a wrong, shortened rate.)
+            let file = open_rates_csv_tmp_file_write(&self.dir_path, year)?;
 
             // CSV file of date,exchange_rate
 
@@ -229,7 +241,17 @@ pub mod csv {
                     r.as_ref().err().unwrap()
                 );
             }
-            r
+            r?;
+
+            let file = csv_w.into_inner().map_err(|e| e.to_string())?;
+            file.sync_all().map_err(|e| e.to_string())?;
+            drop(file);
+
+            std::fs::rename(
+                rates_csv_tmp_file_path(&self.dir_path, year),
+                rates_csv_file_path(&self.dir_path, year),
+            )
+            .map_err(|e| e.to_string())
         }
 
         fn get_usd_cad_rates(
